@@ -20,3 +20,23 @@ func init() {
 		Assumptions: commonAssumptions,
 	})
 }
+
+func init() {
+	register("C06", &propDef{
+		Rules: []ruleDef{
+			{"C06.sync-reaches-fsync", ruleC06SyncReaches, ""},
+			{"C06.seal-sync", ruleC06SealSync, ""},
+			{"C06.unlink-after-durable", ruleC06Unlink, ""},
+		},
+		Explanation: "Under the stated power-loss model, decides three structural necessary conditions over all paths: (sync-reaches-fsync) DB.Sync, and Put/Delete in sync-after-every-write mode, cannot return success without File.Sync on the current segment, except through the test 'current segment is sealed'; OS-backed File implementations resolve Sync to (*os.File).Sync; (seal-sync) a segment is marked full only after a successful File.Sync of that same segment, so nothing is left unflushed when the log moves on; (unlink-after-durable) in compaction every path from a record copy to FileSystem.Remove passes File.Sync of the current segment. NOT decided: the contents of each power-loss image; that fsync honours its contract.",
+		Assumptions: commonAssumptions,
+	})
+	register("C09", &propDef{
+		Rules: []ruleDef{
+			{"C09.sync-before-close", ruleC09SyncBeforeClose, ""},
+			{"C09.commit-last", ruleCloseOrder, ""},
+		},
+		Explanation: "Decides, on the call-string-cloned interprocedural graph of DB.Close: (sync-before-close) every fs.File.Close of a written file that lies on a success path of DB.Close is preceded on every path by File.Sync on the same file (same access path through the call string) with no write in between; (commit-last) writeMeta, datalog.close, index.close precede LockFile.Unlock on every path, every success return passes Unlock, nothing touches the file system after Unlock, only DB.Close calls Unlock, and datalog.close skips only nil segments. NOT decided: that every power-loss image after Close reopens to the closed contents.",
+		Assumptions: commonAssumptions,
+	})
+}
